@@ -330,8 +330,38 @@ pub fn ascii_sweep(ctx: &Ctx, mode: &Mode, cfg: &TokCfg, witnesses: &[Vec<u16>],
 }
 
 /// Job 3: SIMD window sweep in the data state.
-pub fn simd_windows(ctx: &Ctx, mode: &Mode, stats: &Stats, maxlen: usize) -> u64 {
+/// every string of `len` filler characters with one special inserted before character #i and a
+/// second before character #j >= i (all i; all j for the single-character specials)
+pub fn window_strings(len: usize, filler: char, mut f: impl FnMut(&str)) {
     let specials = ["\n", "\r", "\r\n", "<", "&", "\0", "\u{e9}", "&amp;", "<b>"];
+    for (ai, a) in specials.iter().enumerate() {
+        for i in 0..=len {
+            for (bi, b) in specials.iter().enumerate() {
+                if filler != 'x' && (ai >= 6 || bi >= 6) {
+                    continue;
+                }
+                let js: Vec<usize> = if bi < 4 { (i..=len).collect() } else { vec![i, len] };
+                for j in js {
+                    let mut s = String::with_capacity(len * 4 + 12);
+                    for k in 0..=len {
+                        if k == i {
+                            s.push_str(a);
+                        }
+                        if k == j {
+                            s.push_str(b);
+                        }
+                        if k < len {
+                            s.push(filler);
+                        }
+                    }
+                    f(&s);
+                }
+            }
+        }
+    }
+}
+
+pub fn simd_windows(ctx: &Ctx, mode: &Mode, stats: &Stats, maxlen: usize) -> u64 {
     let cfg = TokCfg::default();
     // filler characters: plain ASCII, a line break (every newline of a block is counted), and
     // multi-byte characters that straddle the 16-byte stride at every offset
@@ -341,38 +371,14 @@ pub fn simd_windows(ctx: &Ctx, mode: &Mode, stats: &Stats, maxlen: usize) -> u64
     lens.par_iter().for_each(|&(len, filler)| {
         let mut n = 0u64;
         let mut local = BTreeSet::new();
-        // one special at position i, optionally a second at position j >= i
-        for (ai, a) in specials.iter().enumerate() {
-            for i in 0..=len {
-                for (bi, b) in specials.iter().enumerate() {
-                    if filler != 'x' && (ai >= 6 || bi >= 6) {
-                        continue;
-                    }
-                    let js: Vec<usize> = if bi < 4 { (i..=len).collect() } else { vec![i, len] };
-                    for j in js {
-                        // string of `len` x's with a inserted before x #i and b before x #j
-                        let mut s = String::with_capacity(len + 12);
-                        for k in 0..=len {
-                            if k == i {
-                                s.push_str(a);
-                            }
-                            if k == j {
-                                s.push_str(b);
-                            }
-                            if k < len {
-                                s.push(filler);
-                            }
-                        }
-                        let sched = vec![Feed::Chunk(s.clone())];
-                        check_one(ctx, mode, &cfg, &sched, &s, "simd-window");
-                        n += 1;
-                        if n % 16 == 0 {
-                            local.insert(digest(&run_ref(&cfg, &s).items));
-                        }
-                    }
-                }
+        window_strings(len, filler, |s| {
+            let sched = vec![Feed::Chunk(s.to_string())];
+            check_one(ctx, mode, &cfg, &sched, s, "simd-window");
+            n += 1;
+            if n % 16 == 0 {
+                local.insert(digest(&run_ref(&cfg, s).items));
             }
-        }
+        });
         total.fetch_add(n, Ordering::Relaxed);
         stats.execs.fetch_add(n, Ordering::Relaxed);
         stats.outcomes.lock().unwrap().extend(local);
